@@ -433,7 +433,7 @@ bool TypeAuditor::ViGlobal(Cursor iter) {
     return false;
   }
   const auto* type = env.context.TypeFor(alias); 
-  if (type == nullptr) {
+  if (type == nullptr || !std::holds_alternative<Typification>(*type)) {
     OnError(
       SemanticEID::globalNotTyped,
       iter->pos.start,
